@@ -280,6 +280,19 @@ func applyChange(content string, lines []string, change TextDocumentContentChang
 	startOffset := positionToOffset(lines, change.Range.Start)
 	endOffset := positionToOffset(lines, change.Range.End)
 
+	// Positions come from the client: clamp both offsets into the document
+	// (a line past the end or a negative character must not crash the server)
+	// and keep them ordered.
+	if startOffset < 0 {
+		startOffset = 0
+	}
+	if startOffset > len(content) {
+		startOffset = len(content)
+	}
+	if endOffset < startOffset {
+		endOffset = startOffset
+	}
+
 	// Build new content
 	var result strings.Builder
 	result.WriteString(content[:startOffset])
